@@ -65,6 +65,9 @@ def run(prog: Program, rep, tier: str) -> None:
     c04.slack_embedding(prog, sub)
     c04.pipeline(prog, sub)
     feeds(prog, rep)
+    # "variable bounds hold exactly": every accepted point is the component-wise clamp onto the bounds themselves (C15 / C05's rule)
+    from . import c15
+    c15.clamp(prog, rep)
     # (5) multiplier signs
     it = prog.cls("pygradflow.iterate.Iterate")
     c13.sign_table(prog, rep, it.methods["bounds_dual"], "-(self.obj_grad + self.cons_jac.T.dot(self.y))",
